@@ -22,6 +22,15 @@ TWIN_SRC = "(define-library (s twin) (export a b xa d) (begin (define a 1.0) (de
 BIG = ["s", "big"]
 BIG_EXPORTS = {"e%d" % i: 1000 + i for i in range(60)}
 BIG_SRC = "(define-library (s big) (export %s) (begin %s))" % (" ".join(BIG_EXPORTS), " ".join("(define %s %d)" % kv for kv in BIG_EXPORTS.items()))
+ODD = ["s", "odd"]
+# exports whose values are not equal to themselves under = / equal?-style comparison or cannot be compared structurally at all: an inexact NaN, a procedure,
+# a vector, a vector that contains itself; `which` names the export a value is (by identity)
+ODD_SRC = ("(define-library (s odd) (import (scheme base)) (export a b xa d) (begin (define a (/ 0. 0.)) (define (b x) x) (define xa (vector 1 2)) "
+           "(define d (vector 0)) (vector-set! d 0 d)))")
+ODDW = ["s", "oddw"]
+ODDW_SRC = ("(define-library (s oddw) (import (scheme base) (s odd)) (export which) (begin "
+           "(define (which x) (cond ((eq? x b) 'b) ((eq? x xa) 'xa) ((eq? x d) 'd) ((and (number? x) (not (= x x))) 'a) (else 'other)))))")
+ODD_EXPORTS = {"a": "a", "b": "b", "xa": "xa", "d": "d"}
 TWIN_EXPORTS = {"a": ("r", 0x3f800000), "b": ("r", 0x40000000), "xa": ("r", 0x40400000), "d": ("r", 0x40800000)}
 
 
@@ -164,7 +173,7 @@ def run(tier, seed):
                 "(operator nesting, identifier-list lengths, rename kind swap/chain/plain)" % (depth, " (depth <= 2 exhaustive, depth 3: %d sampled)" % d3_sample, replicas))
     ctx.assumptions = ["admissible terms only: identifiers present, resulting names unique"]
     leg = "dev" if tier == "quick" else "release"
-    interp = {"stdlib": False, "natives": False, "libs": [{"name": LIBN, "native": [[n, v] for n, v in EXPORTS.items()]}, {"name": LIBS, "src": SRC}, {"name": TWIN, "src": TWIN_SRC}, {"name": BIG, "src": BIG_SRC}]}
+    interp = {"stdlib": False, "natives": False, "libs": [{"name": LIBN, "native": [[n, v] for n, v in EXPORTS.items()]}, {"name": LIBS, "src": SRC}, {"name": TWIN, "src": TWIN_SRC}, {"name": BIG, "src": BIG_SRC}, {"name": ODD, "src": ODD_SRC}, {"name": ODDW, "src": ODDW_SRC}]}
     per = 400
     jobs, meta = [], []
     for rep in range(replicas):
@@ -274,6 +283,45 @@ def run(tier, seed):
         else:
             ctx.count("import_histories"); ctx.nontriv("H|" + "+".join(shape(t) + w[0] for t, w in decls)[:80])
     ctx.legs.append(leg + ":import-histories")
+    # OVERLAPPING import sets in one declaration: the same export of the same library reaches the environment along several paths (that is a consistent
+    # union, whatever the value is: a NaN, a procedure, a vector, a vector containing itself); every resulting name must be the export the algebra says, by identity
+    jobs, meta = [], []
+    for _ in range(800 if tier == "quick" else core.share(12000)):
+        for attempt in range(20):
+            decl = [rng.choice(small_terms) for _ in range(rng.choice([2, 2, 3, 4]))]
+            exp, ok, overlap = {}, True, 0
+            for t in decl:
+                for n, o in ev(t, ODD_EXPORTS).items():
+                    if n in exp:
+                        overlap += 1
+                        ok = ok and exp[n] == o
+                    exp[n] = o
+            if ok and overlap and exp:
+                break
+        else:
+            continue
+        text = "(import %s (s oddw))" % " ".join(to_text(t, ODD) for t in decl)
+        names = sorted(exp)
+        jobs.append({"id": "c12o", "interps": [interp], "steps": [{"src": text}, {"env_names": True}] + [{"src": "(which %s)" % n} for n in names], "fuel": 100000})
+        meta.append((decl, text, exp, names))
+    recs = core.run_jobs(jobs, leg, timeout=900, tag="c12o")
+    for (decl, text, exp, names), rec in zip(meta, recs):
+        if rec is None or "steps" not in rec:
+            ctx.inconclusive_cases += 1; continue
+        ctx.evaluations += 1
+        st = rec["steps"]
+        k0, v0 = core.outcome(st[0])
+        got = observed_map(st[1])
+        got_names = sorted(n for n in (got or {}) if n != "which")
+        which = [core.outcome(x) for x in st[2:]]
+        seen_as = [(v.get("y") if isinstance(v, dict) else None) if k == "ok" else k for k, v in which]
+        if k0 != "ok" or got_names != names or seen_as != [exp[n] for n in names]:
+            ctx.violation({"what": "a declaration whose import sets overlap in the SAME export does not bind the union the algebra yields (each name to the export it denotes)", "kind": "import-overlap",
+                           "text": text, "expected": exp, "observed_names": got_names, "observed_exports": seen_as, "import_outcome": st[0] if k0 != "ok" else "ok",
+                           "dedupe": "overlap|%s" % (k0 == "ok")}, {"text": text})
+        else:
+            ctx.count("overlapping_declarations"); ctx.nontriv("O|" + "+".join(shape(t) for t in decl)[:80])
+    ctx.legs.append(leg + ":overlapping-import-sets")
     # long identifier lists and rename lists over a library with 60 exports
     jobs, meta = [], []
     for _ in range(60 if tier == "quick" else core.share(1200)):
@@ -319,7 +367,7 @@ def run(tier, seed):
 def replay(path):
     data = json.load(open(path))
     r = data["replay"]
-    interp = {"stdlib": False, "natives": False, "libs": [{"name": LIBN, "native": [[n, v] for n, v in EXPORTS.items()]}, {"name": LIBS, "src": SRC}, {"name": TWIN, "src": TWIN_SRC}, {"name": BIG, "src": BIG_SRC}]}
+    interp = {"stdlib": False, "natives": False, "libs": [{"name": LIBN, "native": [[n, v] for n, v in EXPORTS.items()]}, {"name": LIBS, "src": SRC}, {"name": TWIN, "src": TWIN_SRC}, {"name": BIG, "src": BIG_SRC}, {"name": ODD, "src": ODD_SRC}, {"name": ODDW, "src": ODDW_SRC}]}
     if "texts" in r:
         steps = []
         for tx in r["texts"]:
